@@ -13,8 +13,18 @@ where
 
     let mut n = 0;
 
+    // Whether the last buffer had no line feed and ended with a carriage return, which is held
+    // back: it is part of a line terminator if the next buffer starts with a line feed.
+    let mut has_trailing_carriage_return = false;
+
     loop {
         let src = reader.fill_buf().await?;
+
+        if has_trailing_carriage_return && !src.is_empty() && !src.starts_with(&[LINE_FEED]) {
+            buf.push(CARRIAGE_RETURN);
+        }
+
+        has_trailing_carriage_return = false;
 
         if src.first().map(|&b| b == DEFINITION_PREFIX).unwrap_or(true) {
             break;
@@ -34,7 +44,13 @@ where
                 i + 1
             }
             None => {
-                buf.extend(src);
+                if let Some((&CARRIAGE_RETURN, line)) = src.split_last() {
+                    has_trailing_carriage_return = true;
+                    buf.extend_from_slice(line);
+                } else {
+                    buf.extend_from_slice(src);
+                }
+
                 src.len()
             }
         };
